@@ -68,8 +68,13 @@ Compatible(nv, p) == \A k \in BoundKinds : (p[k] = "pass" => ~nv[k]) /\ (p[k] = 
 \* per-pair environment observation (string family only)
 EnvOf(e, i) == IF e.envs = <<>> THEN <<>> ELSE e.envs[i]
 
-CallEps == DirectEps \cup {"default", "parse", "deser", "canon"}
-BaseEp(d, ep) == IF ep = "canon" THEN CtorName(d) ELSE ep
+CallEps == DirectEps \cup {"default", "parse", "deser", "deser_any", "canon"}
+BaseEp(d, ep) == IF ep = "canon" THEN CtorName(d) ELSE IF ep = "deser_any" THEN "deser" ELSE ep
+
+\* "deser_any": routes on which the deserializer does not call visit_newtype_struct (a self-describing value tree, a
+\* deserializer that presents the payload as a sequence).  Whether such a route is supported at all is not C04's
+\* business; its soundness half is: the result is an error, or exactly what the constructor makes of the payload.
+Lenient(e, i) == e.ep = "deser_any" /\ e.outs[i].k \in {"derr", "err"}
 
 \* does judging this pair depend on the NaN policy?
 NanMatters(d, inp, env) ==
@@ -162,13 +167,13 @@ StepCall(e, d) ==
       nanI == {i \in N : NanMatters(d, e.ins[i], EnvOf(e, i))}
       plain == N \ nanI
       anyNv == CodeNanPolicy
-      badPlain == {i \in plain : ~DeclOK(d, bep, e.ins[i], EnvOf(e, i), anyNv, e.outs[i]) \/ ~CanonOK(d, e, i)}
+      badPlain == {i \in plain : ~(DeclOK(d, bep, e.ins[i], EnvOf(e, i), anyNv, e.outs[i]) \/ Lenient(e, i)) \/ ~CanonOK(d, e, i)}
       cands == IF nanI = {} THEN {anyNv}
                ELSE {nv \in Policies : Compatible(nv, pol) /\
-                       \A i \in nanI : DeclOK(d, bep, e.ins[i], EnvOf(e, i), nv, e.outs[i])}
+                       \A i \in nanI : DeclOK(d, bep, e.ins[i], EnvOf(e, i), nv, e.outs[i]) \/ Lenient(e, i)}
       badNan == IF cands = {} THEN nanI ELSE {i \in nanI : ~CanonOK(d, e, i)}
       bad == badPlain \cup badNan
-      drift == {i \in N \ bad : e.outs[i] # OpCall(d, bep, e.ins[i], EnvOf(e, i)) /\ ~(bep = "deser" /\ ~e.ins[i].ok)}
+      drift == {i \in N \ bad : e.outs[i] # OpCall(d, bep, e.ins[i], EnvOf(e, i)) /\ ~(bep = "deser" /\ ~e.ins[i].ok) /\ ~Lenient(e, i)}
   IN
     /\ \A i \in bad :
          PrintT(<<"BAD", l, i, ToJson([d |-> e.d, ep |-> e.ep, inp |-> e.ins[i], got |-> e.outs[i],
